@@ -646,6 +646,7 @@ def process_batch(batch):
 # ----------------------------------------------------------------------------------------------
 # generators
 
+PY_ONLY_TEXTS = ['\udcff lone surrogate', 'y' * 70000]
 TEXTS = ['a', 'line\n', 'no newline', '', 'ünï☃\n', 'x' * 100 + '\n', '\n\n', 'tab\tand\rcr\n', '\x00nul', 'é', ' ', '  \n', '\n',
          'a\n\nb\n', '\r\n']
 STRS = ['', 'abc', 'ünï☃', 'x' * 50, 'False', '0']
@@ -685,7 +686,8 @@ def gen_ret_data(rng):
 
 
 def gen_writes(rng):
-    return [[rng.choice('oe'), rng.choice(TEXTS)] for _ in range(rng.randint(0, 5))]
+    return [[rng.choice('oe'), rng.choice(TEXTS if rng.random() < 0.95 else PY_ONLY_TEXTS)]
+            for _ in range(rng.randint(0, 5))]
 
 
 def gen_py(rng):
@@ -693,6 +695,8 @@ def gen_py(rng):
          'capture': rng.choice([True, True, True, False, None] if rng.random() < 0.93 else ODD_CAPTURES)}
     if rng.random() < 0.15:
         c['repeat'] = 2
+    if rng.random() < 0.3:
+        c['stream_v'] = rng.choice([0, 1, 2])      # Task.execute must use the task's verbosity, not the Stream's
     r = rng.random()
     if r < 0.12:
         c['kwargs_raise'] = rng.choice(actlib.KW_REPS)
@@ -738,11 +742,14 @@ def gen_cmd(rng, big=False):
     c = {'kind': 'cmd', 'chunks': [[rng.choice('ooe'), gen_chunk(rng, big)] for _ in range(rng.randint(0, 5))],
          'exit': gen_exit(rng), 'v': rng.choice(VERBS),
          'capture': rng.choice([True, True, True, False, None] if rng.random() < 0.9 else ODD_CAPTURES),
-         'save_out': rng.choice([None, None, 0, 3]), 'form': rng.choice(['str', 'str', 'list', 'callable'])}
+         'save_out': rng.choice([None, None, 0, 3]),
+         'form': rng.choice(['str', 'str', 'list', 'callable', 'rawstr', 'rawlist'])}
     if rng.random() < 0.06:
         c['expand'] = rng.choice(['badkey', 'badelem', 'callable_raises'])
     if rng.random() < 0.1:
         c['repeat'] = 2
+    if rng.random() < 0.3:
+        c['stream_v'] = rng.choice([0, 1, 2])
     if rng.random() < 0.1 and c['capture'] is True:
         c['buffering'] = rng.choice([1, 2, 3, 5, 7, 64, 1024])
     return c
@@ -779,10 +786,13 @@ def gen_task_action(rng, bad=None):
         else:
             ret = rng.choice([r for r in all_rets() if r['cat'] in ('true', 'none', 'str', 'dict')] +
                              [gen_ret_data(rng) for _ in range(6)])
-        return {'t': 'py', 'ret': copy.deepcopy(ret)}
+        a = {'t': 'py', 'ret': copy.deepcopy(ret)}
+        if rng.random() < 0.15:
+            a['tuple_form'] = True
+        return a
     a = {'t': 'cmd', 'chunks': [[rng.choice('oe'), {'text': rng.choice(['x', 'y\n', 'ç', ''])}]
                                 for _ in range(rng.randint(0, 2))],
-         'save_out': rng.choice([None, 1, 2, 5])}
+         'save_out': rng.choice([None, None, 1, 2, 5]), 'form': rng.choice(['str', 'rawstr', 'rawlist', 'list'])}
     a['exit'] = ['status', rng.choice([1, 3, 125, 126, 200])] if bad else ['status', 0]
     if bad and rng.random() < 0.2:
         a['exit'] = ['signal', 15]
@@ -901,6 +911,11 @@ def exhaustive_py():
             for v in VERBS:
                 out.append({'kind': 'py', 'ret': {'cat': 'true'}, 'writes': writes, 'v': v, 'capture': cap,
                             'kwargs_raise': kw})
+    for v in (0, 1, 2):
+        for sv in (0, 1, 2):
+            if sv != v:
+                out.append({'kind': 'py', 'ret': {'cat': 'true'}, 'writes': writes, 'v': v, 'capture': True,
+                            'stream_v': sv})
     for swap in ('stdout', 'stderr', 'both'):
         for v in VERBS:
             for ret in ({'cat': 'true'}, {'cat': 'raises', 'rep': 'ValueError'},
@@ -1047,7 +1062,7 @@ def build_cases(ctx, scale):
     cases += exhaustive_task(2 if quick else 3, 2 if quick else 2)
     cases += exhaustive_overlap()
     cases += exhaustive_nested()
-    n = {'py': 3000, 'cmd': 900, 'task': 1500, 'nested': 1200, 'overlap': 160} if quick else \
+    n = {'py': 4000, 'cmd': 1200, 'task': 2000, 'nested': 1500, 'overlap': 200} if quick else \
         {'py': 30000, 'cmd': 12000, 'task': 20000, 'nested': 12000, 'overlap': 1500}
     for kind, gen in (('py', gen_py), ('cmd', gen_cmd), ('task', gen_task), ('nested', gen_nested),
                       ('overlap', gen_overlap)):
